@@ -23,7 +23,7 @@ Theorem C09_no_early_release : forall ops,
   let s := run init ops in
   forall c, lost s = false ->
     (exists i t, nth_error (h_trk (hd s)) i = Some t /\ t_proxy t <> None /\ t_clid t = c) \/
-    (exists d, In (MyRef c d) (ch_oh s)) \/ (exists k, In (ToOwner c k) (ch_ho s)) ->
+    (exists d w, In (MyRef c d w) (ch_oh s)) \/ (exists k, In (ToOwner c k) (ch_ho s)) ->
     exists e, find_clid (o_tab (ow s)) c = Some e /\ 1 <= oe_rc e /\ In (c, oe_obj e) (o_alloc (ow s)).
 Proof. exact no_early_release. Qed.
 Print Assumptions C09_no_early_release.
